@@ -77,6 +77,25 @@ theorem C08_index_contains (es : List Entry)
       rw [hends, List.getElem?_map, hei]; rfl
     exact h2 i _ (le_refl _) hiend
 
+/-- `np.searchsorted(span_ends, t, side="right")`: the number of ends `≤ t` (what the source does *not* use) -/
+def searchsortedRight (ends : List Rat) (t : Rat) : Nat := (ends.takeWhile (· ≤ t)).length
+
+/-- **the side matters** (sharpness of `C08_index_contains`): selecting with `side="right"` is wrong exactly on the closing
+edge of an entry that is followed by a gap — for the two-entry table below (spans [0,2] and [10,12]) the instant `t = 2`
+lies in the first span, the left search selects the first entry, the right search selects the second, whose span does not
+contain `t`.  Together with `C08_source_literals` (`side = "left"`, regenerated from the source) this is what pins the
+selection rule. -/
+theorem C08_right_search_fails :
+    let e0 : Entry := { tmid := 1, span := 2, rphase := 0, poly := [] }
+    let e1 : Entry := { tmid := 11, span := 2, rphase := 0, poly := [] }
+    let es := [e0, e1]
+    let ends := es.map fun e => e.tmid + e.span / 2
+    (e0.tmid - e0.span / 2 ≤ 2 ∧ (2 : Rat) ≤ e0.tmid + e0.span / 2) ∧
+    searchsortedLeft ends 2 = 0 ∧ searchsortedRight ends 2 = 1 ∧
+    ¬ (e1.tmid - e1.span / 2 ≤ (2 : Rat)) := by
+  simp only [searchsortedLeft, searchsortedRight, List.map]
+  norm_num [List.takeWhile]
+
 /-- **validity intervals cover every span** (the merge loop never drops part of a span) -/
 theorem C08_intervals_cover (tol : Rat) (es : List Entry) (e : Entry) (he : e ∈ es) :
     ∃ y ∈ intervals tol es, y.1 ≤ e.tmid - e.span / 2 ∧ e.tmid + e.span / 2 ≤ y.2 :=
